@@ -327,3 +327,47 @@ def probe_masks(facts):
     if n < 5:
         out.append(ob("fi.mask", "anchor", "", "unrecognised", "only %d probe masks found" % n, ""))
     return out
+
+
+def purge_sample(facts):
+    """purge(): the purge amount is the median of min(MAX_SAMPLE_SIZE, num_active_) ACTIVE counters: the loop that collects the
+    sample runs until that many samples are taken (its condition reads the sample counter - the local that indexes the sample
+    buffer), not over a fixed number of table cells.  Scanning only the first `limit` cells takes the median of the few active
+    entries that happen to sit in the low part of the table."""
+    fns = fns_of(facts)
+    out = []
+    for pat, fn in sorted(fns.items()):
+        if fn["name"] != "purge" or MAP not in (fn.get("rect") or ""):
+            continue
+        key = "reverse_purge_hash_map::purge:sample-of-active-counters"
+        stores = []
+
+        def v(n, ps):
+            if n.get("k") == "Assign" and n.get("op") == "=":
+                l = strip_all(n["l"])
+                idx = None
+                if l.get("k") == "Index":
+                    idx = strip_all(l.get("i") or {})
+                elif l.get("k") == "OpCall" and l.get("op") == "[]" and len(l.get("args", [])) == 2:
+                    idx = strip_all(l["args"][1])
+                if isinstance(idx, dict) and "values_" in txt(n["r"]):
+                    while idx.get("k") == "Un" and idx.get("op") in ("++",):
+                        idx = strip_all(idx.get("e") or {})
+                    if idx.get("k") == "Ref" and idx.get("dk") == "local":
+                        loops = [p for p in ps if p.get("k") in ("For", "While", "Do")]
+                        stores.append((n, idx, loops))
+        walkp(fn["body"], v)
+        if len(stores) != 1 or not stores[0][2]:
+            out.append(ob("fi.sample", key, fn["pat"], "unrecognised", "the loop that copies active counters into the sample buffer was not found", fn["qname"]))
+            continue
+        n, cnt, loops = stores[0]
+        L = loops[-1]
+        refs = []
+        walk(L.get("c") or {}, lambda x: refs.append(x.get("d")) if x.get("k") == "Ref" else None)
+        active = []
+        walk(L.get("b") or {}, lambda x: active.append(x) if x.get("k") == "Call" and x.get("cname") == "is_active" else None)
+        if cnt["d"] in refs and active:
+            out.append(ob("fi.sample", key, L.get("loc", fn["pat"]), "discharged", "the sampling loop runs until `%s` samples of active cells are taken" % cnt["n"], fn["qname"]))
+        else:
+            out.append(ob("fi.sample", key, L.get("loc", fn["pat"]), "violated", "the sampling loop is bounded by `%s`, which does not read the sample counter `%s`: it scans a fixed number of table cells instead of collecting that many active counters, so the purge amount is the median of whatever sits in the low part of the table (the error can exceed epsilon * N)" % (txt(L.get("c")), cnt["n"]), fn["qname"]))
+    return out
